@@ -95,6 +95,13 @@ def gen_cases(n, s, tier):
             src = gen_core.render(lines, module_level=ml)
             srcs[cid] = src
             cases.append({"id": cid, "cfg": {"dialect": "extended"}, "units": [{"file": "p.star", "src": src}]})
+    # definitely-assigned analysis: locals assigned on some paths only (one call per program)
+    for i in range(n // 4):
+        rng = random.Random("%d/c01u/%d" % (s, i))
+        cid = "u%d" % i
+        src = gen_core.gen_unassigned(rng)
+        srcs[cid] = src
+        cases.append({"id": cid, "cfg": {"dialect": "extended"}, "units": [{"file": "p.star", "src": src}]})
     return cases, srcs
 
 
